@@ -90,6 +90,7 @@ fn parse_args() -> Args {
 fn witnesses(ctx: &mut Ctx) {
     let prop = ctx.prop.clone();
     match prop.as_str() {
+        "C01" => tokprops::c01_witness_long_sentence(ctx),
         "C02" => tokprops::c02_witness_many_nodes(ctx),
         "C03" => {
             tokprops::c03_witness_astral(ctx);
@@ -99,7 +100,10 @@ fn witnesses(ctx: &mut Ctx) {
         "C07" => dictprops::c07_witnesses(ctx),
         "C10" => miscprops::c10_witnesses(ctx),
         "C14" => trainprops::c14_witness_no_bigram_feature(ctx),
-        "C16" => trainprops::c16_witness_dual_clamp(ctx),
+        "C16" => {
+            trainprops::c16_witness_dual_clamp(ctx);
+            trainprops::c16_witness_star_feature(ctx);
+        }
         _ => {}
     }
 }
